@@ -3,6 +3,8 @@ package c13
 import (
 	"encoding/json"
 	"fmt"
+	"os"
+	"path/filepath"
 	"sort"
 	"strings"
 	"sync"
@@ -118,7 +120,34 @@ func noteLate(class string, ms int64, example string) {
 	ev.Note(campaign, "late_examples", lateExamples)
 }
 
-func newS(h *hist.H, c *ev.Case, fail func(string, ...any)) *S {
+// keepLogs copies the tail of the server's logs next to the failure file (diagnosis of a failing history).
+func keepLogs(srv *bb.Server) {
+	dir := os.Getenv("VERIF_FAILDIR")
+	if dir == "" || os.Getenv("C13_KEEP_LOGS") == "" {
+		return
+	}
+	dst := filepath.Join(dir, fmt.Sprintf("logs-%d", os.Getpid()))
+	_ = os.RemoveAll(dst)
+	_ = os.MkdirAll(dst, 0o755)
+	files, _ := filepath.Glob(filepath.Join(srv.LogDir(), "*"))
+	more, _ := filepath.Glob(filepath.Join(srv.Dir, "stdout-*.log"))
+	for _, f := range append(files, more...) {
+		b, err := os.ReadFile(f)
+		if err != nil {
+			continue
+		}
+		if len(b) > 400000 {
+			b = b[len(b)-400000:]
+		}
+		_ = os.WriteFile(filepath.Join(dst, filepath.Base(f)), b, 0o644)
+	}
+}
+
+func newS(h *hist.H, c *ev.Case, fail0 func(string, ...any)) *S {
+	fail := func(format string, a ...any) {
+		keepLogs(h.Srv)
+		fail0(format, a...)
+	}
 	s := &S{h: h, c: c, w: newWorld(), fail: fail, visible: map[string]bool{}, unflushed: map[string]bool{}, inFiles: map[string]bool{}, shapesAfterNT: map[string]bool{},
 		grace: 30 * time.Second, delReady: map[string]bool{}, groupSeen: map[string]bool{}, detached: map[string]bool{}, everMst: map[string]bool{}, tainted: map[string]bool{}, redropped: map[string]bool{}, frozen: map[string]bool{}}
 	s.w.add("db0", "db0", "")
@@ -402,6 +431,40 @@ func (s *S) unreliable(r *ReadSpec) bool {
 	return r.Pred == nil || !positiveOnly(r.Pred)
 }
 
+func predKeys(p *Pred, into map[string]bool) {
+	if p == nil {
+		return
+	}
+	if p.Op == "and" || p.Op == "or" {
+		predKeys(p.L, into)
+		predKeys(p.R, into)
+		return
+	}
+	into[p.Key] = true
+}
+
+// keysKnown: every tag key the read filters or groups on is a tag of the measurement's current incarnation. (A key
+// that is not in the measurement's schema is not a tag at all for the server: the comparison is then evaluated as
+// one with a missing field, which is not what the tag model describes - such reads are not generated.)
+func (s *S) keysKnown(n *nsState, mst string, p *Pred, group []string) bool {
+	if mst == "" {
+		return true
+	}
+	ks := map[string]bool{}
+	predKeys(p, ks)
+	for _, g := range group {
+		if g != "*" {
+			ks[g] = true
+		}
+	}
+	for k := range ks {
+		if !n.Ever[mst][k] {
+			return false
+		}
+	}
+	return true
+}
+
 // reachesDetached: the drop selects a series with rows in a shard group whose index the deleted-series set is
 // not attached to (known finding).
 func (s *S) reachesDetached(d *Drop) bool {
@@ -468,6 +531,10 @@ func (s *S) check(reads []ReadSpec, when string, strict bool) {
 		r := &reads[i]
 		n := s.w.ns[r.NS]
 		if n == nil {
+			continue
+		}
+		if (r.Kind == "rows" || r.Kind == "agg" || r.Pred != nil) && !s.keysKnown(n, r.Mst, r.Pred, r.Group) {
+			s.c.Class("read-left-out:filter-or-grouping-on-a-key-that-is-not-a-tag-of-the-measurement")
 			continue
 		}
 		if s.unreliable(r) {
@@ -983,6 +1050,9 @@ func runHistory(t *rapid.T, c *ev.Case) {
 					}
 				} else {
 					d.Pred = genPred(t, rapid.IntRange(0, 3).Draw(t, "regex") == 0)
+				}
+				if !s.keysKnown(n, d.Mst, d.Pred, nil) {
+					d.Pred = &Pred{Op: "eq", Key: "host", Val: rapid.SampledFrom(hostVals).Draw(t, "fallbackHost")}
 				}
 				if len(preds) < 12 {
 					preds = append(preds, d.Pred)
